@@ -274,6 +274,11 @@ type GRPCBroker struct {
 	clientStreams map[uint32]*gRPCBrokerPending
 	serverStreams map[uint32]*gRPCBrokerPending
 
+	// listeners holds the listeners handed out by Accept (when not
+	// multiplexing) that have not been closed yet, so that Close can close
+	// them and their Unix socket files do not outlive the process.
+	listeners map[net.Listener]struct{}
+
 	unixSocketCfg  UnixSocketConfig
 	addrTranslator runner.AddrTranslator
 
@@ -298,6 +303,7 @@ func newGRPCBroker(s streamer, tls *tls.Config, unixSocketCfg UnixSocketConfig, 
 
 		clientStreams: make(map[uint32]*gRPCBrokerPending),
 		serverStreams: make(map[uint32]*gRPCBrokerPending),
+		listeners:     make(map[net.Listener]struct{}),
 		muxer:         muxer,
 
 		unixSocketCfg:  unixSocketCfg,
@@ -355,6 +361,7 @@ func (b *GRPCBroker) Accept(id uint32) (net.Listener, error) {
 	if err != nil {
 		return nil, err
 	}
+	listener = b.trackListener(listener)
 
 	advertiseNet := listener.Addr().Network()
 	advertiseAddr := listener.Addr().String()
@@ -429,12 +436,50 @@ func (b *GRPCBroker) AcceptAndServe(id uint32, newGRPCServer func([]grpc.ServerO
 	g.Run()
 }
 
+// trackedListener is a listener handed out by Accept that the broker closes
+// in Close unless its user closed it before.
+type trackedListener struct {
+	net.Listener
+	broker *GRPCBroker
+}
+
+func (l *trackedListener) Close() error {
+	l.broker.Lock()
+	delete(l.broker.listeners, l.Listener)
+	l.broker.Unlock()
+
+	return l.Listener.Close()
+}
+
+// trackListener registers ln to be closed by Close, and returns a listener
+// that unregisters itself when it is closed by its user.
+func (b *GRPCBroker) trackListener(ln net.Listener) net.Listener {
+	b.Lock()
+	defer b.Unlock()
+
+	b.listeners[ln] = struct{}{}
+	return &trackedListener{Listener: ln, broker: b}
+}
+
 // Close closes the stream and all servers.
 func (b *GRPCBroker) Close() error {
 	b.streamer.Close()
 	b.o.Do(func() {
 		close(b.doneCh)
 	})
+
+	// Close the listeners that are still open here, rather than leaving it to
+	// the AcceptAndServe goroutines woken up by doneCh: when a plugin shuts
+	// down, the process can exit before they get to run, and the Unix socket
+	// files would be left behind.
+	b.Lock()
+	listeners := b.listeners
+	b.listeners = make(map[net.Listener]struct{})
+	b.Unlock()
+	for ln := range listeners {
+		_ = ln.Close()
+	}
+
 	return nil
 }
 
